@@ -315,6 +315,26 @@ func CheckC13(e *Env) (int, error) {
 		kindOf[len(plans)] = kind
 		plans = append(plans, &histPlan{Source: "hook", Hold: true, Ops: ops})
 	}
+	// long histories: thousands of cheap calls in one process (state that only shows at the Nth call)
+	nLong := 6
+	if thorough {
+		nLong = 150
+	}
+	var cheap []int
+	for i := range pool {
+		if pool[i].K != "seed" {
+			cheap = append(cheap, i)
+		}
+	}
+	for i := 0; i < nLong; i++ {
+		r := plan.NewRand(plan.Derive(e.Seed, "C13/long", uint64(i)))
+		var ops []plan.Op
+		for k := 0; k < 8000; k++ {
+			ops = append(ops, pool[cheap[r.Intn(len(cheap))]])
+		}
+		kindOf[len(plans)] = "long"
+		plans = append(plans, &histPlan{Source: "hook", Hold: false, Ops: ops})
+	}
 	var mu sync.Mutex
 	var viols []*Violation
 	var trouble error
@@ -400,7 +420,7 @@ func CheckC13(e *Env) (int, error) {
 		if v != nil {
 			viols = append(viols, g.violation(hp, v))
 		}
-		if len(samples) < 5 && (i%997 == 0) && res != nil {
+		if len(samples) < 5 && (i%997 == 0) && res != nil && len(hp.Ops) <= 40 {
 			var ob []string
 			for j := range hp.Ops {
 				if j >= len(res.Outcomes) {
@@ -425,7 +445,7 @@ func CheckC13(e *Env) (int, error) {
 	cov := map[string]interface{}{
 		"evaluations":           len(plans),
 		"distinct_nontrivial":   len(distinct),
-		"rule":                  "a case = one history (1-40 exported calls) executed by a single goroutine in a fresh process, every outcome compared with the outcome of the same call alone in a fresh process of the same build; caller-owned buffers (entropy incl. spare capacity) and returned seeds/strings re-inspected after every later call. Enumerated: all 12x12 ordered pairs of first-used Language values x 3 first-op kinds x 3 second-op kinds; every supported language's valid phrase asked under each of the 11 other Language values before and after its acceptance. Non-trivial: >= 2 calls on a common Language value; distinct by digest of the call sequence.",
+		"rule":                  "a case = one history (1-40 exported calls; a few histories of 8000 calls) executed by a single goroutine in a fresh process, every outcome compared with the outcome of the same call alone in a fresh process of the same build; caller-owned buffers (entropy incl. spare capacity) and returned seeds/strings re-inspected after every later call. Enumerated: all 12x12 ordered pairs of first-used Language values x 3 first-op kinds x 3 second-op kinds; every supported language's valid phrase asked under each of the 11 other Language values before and after its acceptance. Non-trivial: >= 2 calls on a common Language value; distinct by digest of the call sequence.",
 		"exhaustive":            false,
 		"exhaustive_parts":      "ordered pairs of first-used languages (10 supported + 2 unsupported) x {validate valid, validate invalid, generate}^2",
 		"samples":               samples,
